@@ -2322,7 +2322,12 @@ class NetCDFWrite(IOWrite):
 
             # If this domain ancillary has bounds then create the bounds
             # netCDF variable
-            self._write_bounds(f, anc, key, ncdimensions, ncvar)
+            # (the bounds of a formula terms variable can only be
+            # found from the formula_terms attribute of the parent
+            # coordinate's bounds variable when that variable exists
+            # and the term spans the vertical axis, so they are also
+            # named by a 'bounds' attribute)
+            extra = self._write_bounds(f, anc, key, ncdimensions, ncvar)
 
             # Create a new domain ancillary variable
             self._write_netcdf_variable(
@@ -2330,6 +2335,7 @@ class NetCDFWrite(IOWrite):
                 ncdimensions,
                 anc,
                 self.implementation.get_data_axes(f, key),
+                extra=extra,
             )
 
         g["key_to_ncvar"][key] = ncvar
